@@ -11,3 +11,5 @@ func newCacheCap(n int) *oidc.Cache { return oidc.VerifNewCache(n) }
 func cacheSnapshot(c *oidc.Cache) (order, items, elems []string) { return c.VerifSnapshot() }
 
 func stopMetadataCleanup(t *oidc.TraefikOidc) bool { t.VerifStopMetadataCleanup(); return true }
+
+func housekeeping(t *oidc.TraefikOidc) bool { t.VerifHousekeeping(); return true }
